@@ -206,6 +206,18 @@ def handle (ws : List String) : String :=
     match caseMap? cm, (if attached == "*" then some none else (strList? attached).map some), xdoc? rest with
     | some cf, some att, some d => renderDoc (nxRead cf att d)
     | _, _, _ => "bad-op"
+  | ["attr-quote", lab] =>
+    match str? lab with
+    | some (some l) => hexS (quoteAttr l)
+    | some none => hexS (quoteAttr [])
+    | none => "bad-op"
+  | ["attr-parse", text] =>
+    match str? text with
+    | some (some t) =>
+      match parseAttr t with
+      | some (v, rest) => "ok " ++ hexS v ++ " " ++ hexS rest
+      | none => "ERR"
+    | _ => "bad-op"
   | ["taxlabels", ps, uu, ns] =>
     match strList? ns with
     | some ns => hexS (taxlabelsText (ps == "1") (uu == "1") ns)
